@@ -114,6 +114,17 @@ def collection_every_table(ctx, P, rule="COLLECTION-TABLES"):
 # Python-specific slips (written before the Python-focused fifth seeding round)
 import ast  # noqa: E402
 
+# (function, parameter): `param or default` confirmed by reading to be right for every falsy value
+OR_DEFAULT_OK = {("unicode_table", "header"),     # an empty header list and None both mean "use the first row"
+                 }
+# (function, name): in-place writes confirmed by reading to be the function's documented effect
+INPLACE_OK = {("add_class", "attrs_dict"),        # drawing helper that exists to update the dict it is given
+              }
+# functions whose iteration over a set was confirmed by reading to feed an order-insensitive consumer
+SET_ORDER_OK = {"genetic_relatedness",            # the union of all samples is ONE sample set for segregating_sites: order-free
+                }
+# attribute names that are numpy arrays sharing the owner's storage (TreeSequence <table>_<column>, Tree *_array, samples ...)
+_ARRAY_ATTR = re.compile(r"^(edges|nodes|sites|mutations|migrations|individuals|populations|provenances|indexes)_|_array$|^samples$")
 _CONSUMERS = {"list", "tuple", "sum", "max", "min", "sorted", "set", "dict", "any", "all", "np.fromiter", "np.array", "len"}
 _GEN_CALLS = {"iter", "map", "zip", "filter", "reversed", "enumerate", "trees", "variants", "edge_diffs", "haplotypes", "alignments"}
 
@@ -149,34 +160,168 @@ def py_function_lints(m, qn, fn):
         if isinstance(h, ast.ExceptHandler) and (h.type is None or ast.unparse(h.type) in ("Exception", "BaseException")) \
                 and all(isinstance(s, (ast.Pass, ast.Continue)) for s in h.body):
             out.append(("swallowed-exception", h, "`except %s: pass` hides every failure of the guarded block" % (ast.unparse(h.type) if h.type else "")))
-    # 4. a one-shot iterator consumed by two loops / consumers
-    gens = {}
+    # 4. a one-shot iterator consumed by two loops / consumers.  Flow-aware in the simple way the idiom needs: only consumers
+    #    textually after the defining statement and not after the next rebinding of the name count (a consumer inside the
+    #    defining statement reads the PREVIOUS value), and two consumers in opposite arms of one `if` are alternatives.
+    par = {}
+    for x in ast.walk(fn):
+        for c in ast.iter_child_nodes(x):
+            par[c] = x
+    def _stmt(n):
+        while n in par and not isinstance(n, ast.stmt):
+            n = par[n]
+        return n
+    def _arms(n):
+        out_ = {}
+        while n in par:
+            p_ = par[n]
+            if isinstance(p_, ast.If):
+                out_[p_] = "body" if any(n is s_ for s_ in p_.body) else "orelse" if any(n is s_ for s_ in p_.orelse) else "test"
+            n = p_
+        return out_
+    rebinds = {}
     for s in ast.walk(fn):
-        if isinstance(s, ast.Assign) and len(s.targets) == 1 and isinstance(s.targets[0], ast.Name):
-            v = s.value
-            if isinstance(v, ast.GeneratorExp) or (isinstance(v, ast.Call) and ast.unparse(v.func).split(".")[-1] in _GEN_CALLS):
-                gens.setdefault(s.targets[0].id, []).append(s)
-    for g, defs in gens.items():
-        if len(defs) > 1:
+        tg_ = []
+        if isinstance(s, ast.Assign):
+            tg_ = s.targets
+        elif isinstance(s, (ast.AugAssign, ast.AnnAssign, ast.For)):
+            tg_ = [s.target]
+        for t_ in tg_:
+            for n_ in ast.walk(t_):
+                if isinstance(n_, ast.Name) and isinstance(n_.ctx, ast.Store):
+                    rebinds.setdefault(n_.id, []).append(s)
+    for s in ast.walk(fn):
+        if not (isinstance(s, ast.Assign) and len(s.targets) == 1 and isinstance(s.targets[0], ast.Name)):
             continue
+        v = s.value
+        if not (isinstance(v, ast.GeneratorExp) or (isinstance(v, ast.Call) and ast.unparse(v.func).split(".")[-1] in _GEN_CALLS)):
+            continue
+        g = s.targets[0].id
+        later = [r.end_lineno for r in rebinds.get(g, []) if r.lineno > s.lineno]
+        hi = min(later) if later else 10 ** 9
         consumed = []
         for x in ast.walk(fn):
+            c = None
             if isinstance(x, (ast.For, ast.comprehension)) and isinstance(x.iter, ast.Name) and x.iter.id == g:
-                consumed.append(x)
-            if isinstance(x, ast.Call) and ast.unparse(x.func) in _CONSUMERS and any(isinstance(a, ast.Name) and a.id == g for a in x.args):
-                consumed.append(x)
+                c = x.iter
+            if isinstance(x, ast.Call) and ast.unparse(x.func) in _CONSUMERS and any(isinstance(a_, ast.Name) and a_.id == g for a_ in x.args):
+                c = x
             if isinstance(x, ast.Starred) and isinstance(x.value, ast.Name) and x.value.id == g:
-                consumed.append(x)
-        if len(consumed) > 1:
-            out.append(("iterator-reuse", defs[0], "`%s` is a one-shot iterator (%s) but is consumed %d times: the second consumer sees nothing"
-                        % (g, ast.unparse(defs[0].value)[:40], len(consumed))))
+                c = x
+            if c is not None and s.end_lineno < _stmt(c).lineno <= hi:
+                consumed.append(c)
+        excl = False
+        if len(consumed) == 2:
+            a0, a1 = _arms(consumed[0]), _arms(consumed[1])
+            excl = any(k in a1 and {a0[k], a1[k]} == {"body", "orelse"} for k in a0)
+        if len(consumed) > 1 and not excl:
+            out.append(("iterator-reuse", s, "`%s` is a one-shot iterator (%s) but is consumed %d times: the second consumer sees nothing"
+                        % (g, ast.unparse(v)[:40], len(consumed))))
+    # 5. `param or default` on a parameter that defaults to None: 0 / 0.0 / "" / an empty array are then treated as missing
+    a = fn.args
+    pos = a.posonlyargs + a.args
+    dflt = {p_.arg: d for p_, d in zip(pos[len(pos) - len(a.defaults):], a.defaults)}
+    dflt.update({p_.arg: d for p_, d in zip(a.kwonlyargs, a.kw_defaults) if d is not None})
+    params = {p_.arg for p_ in pos + a.kwonlyargs}
+    for x in ast.walk(fn):
+        if isinstance(x, ast.BoolOp) and isinstance(x.op, ast.Or) and isinstance(x.values[0], ast.Name) and x.values[0].id in dflt \
+                and isinstance(dflt[x.values[0].id], ast.Constant) and dflt[x.values[0].id].value is None \
+                and (qn, x.values[0].id) not in OR_DEFAULT_OK:
+            out.append(("or-default", x, "`%s` treats every falsy value of the parameter `%s` (0, 0.0, \"\", an empty array) as missing; "
+                        "only None means missing" % (ast.unparse(x)[:50], x.values[0].id)))
+    # 6. a loop variable that the loop body never reads (the body then works on some OTHER variable, usually the outer one)
+    for lp in ast.walk(fn):
+        if isinstance(lp, ast.For):
+            tg = {n.id for n in ast.walk(lp.target) if isinstance(n, ast.Name)}
+            used = {n.id for s in lp.body + lp.orelse for n in ast.walk(s) if isinstance(n, ast.Name)}
+            for v in sorted(tg - used):
+                if not v.startswith("_"):
+                    out.append(("unused-loop-variable", lp, "the loop over `%s` never reads its variable `%s`" % (ast.unparse(lp.iter)[:40], v)))
+    # 7. np.where(cond) / np.nonzero(cond) is a TUPLE of arrays: its len() is the number of dimensions and iterating it yields arrays
+    def _is_where(c):
+        return isinstance(c, ast.Call) and ast.unparse(c.func) in ("np.where", "np.nonzero", "numpy.where", "numpy.nonzero") and len(c.args) == 1
+    tuples = {s.targets[0].id for s in ast.walk(fn) if isinstance(s, ast.Assign) and len(s.targets) == 1
+              and isinstance(s.targets[0], ast.Name) and _is_where(s.value)}
+    def _tuple_expr(e):
+        return _is_where(e) or (isinstance(e, ast.Name) and e.id in tuples)
+    for x in ast.walk(fn):
+        bad = None
+        if isinstance(x, ast.Call) and ast.unparse(x.func) in ("len", "bool", "list", "enumerate", "np.max", "np.min", "max", "min") and x.args and _tuple_expr(x.args[0]):
+            bad = x
+        if isinstance(x, (ast.For, ast.comprehension)) and _tuple_expr(x.iter):
+            bad = x.iter
+        if isinstance(x, ast.Attribute) and x.attr in ("size", "shape") and _tuple_expr(x.value):
+            bad = x
+        if bad is not None:
+            out.append(("where-tuple", bad, "`%s` uses the TUPLE returned by np.where / np.nonzero as if it were the index array (take [0])" % ast.unparse(bad)[:50]))
+    # 8. in-place mutation of an array the function does not own: a local bound only by attribute reads (a view of the
+    #    owner's storage) or a parameter never rebound, written through a subscript or an augmented assignment
+    binds = {}
+    for x in ast.walk(fn):
+        if isinstance(x, ast.Assign):
+            for t_ in x.targets:
+                for n_ in ([t_] if isinstance(t_, ast.Name) else [e for e in getattr(t_, "elts", []) if isinstance(e, ast.Name)]):
+                    binds.setdefault(n_.id, []).append(x.value if isinstance(t_, ast.Name) else None)
+        elif isinstance(x, (ast.For, ast.comprehension)):
+            for n_ in ast.walk(x.target):
+                if isinstance(n_, ast.Name):
+                    binds.setdefault(n_.id, []).append(None)
+        elif isinstance(x, (ast.AugAssign, ast.AnnAssign)) and isinstance(x.target, ast.Name) and isinstance(x, ast.AnnAssign):
+            binds.setdefault(x.target.id, []).append(x.value)
+        elif isinstance(x, ast.withitem) and x.optional_vars is not None:
+            for n_ in ast.walk(x.optional_vars):
+                if isinstance(n_, ast.Name):
+                    binds.setdefault(n_.id, []).append(None)
+    subscripted = {x.value.id for x in ast.walk(fn) if isinstance(x, ast.Subscript) and isinstance(x.value, ast.Name)}
+    def _view(name):
+        vs = binds.get(name)
+        if vs:
+            return all(isinstance(v, ast.Attribute) and not ast.unparse(v).startswith("np.") for v in vs)
+        return False
+    for x in ast.walk(fn):
+        tgts = x.targets if isinstance(x, ast.Assign) else [x.target] if isinstance(x, ast.AugAssign) else []
+        for t_ in tgts:
+            if isinstance(t_, ast.Subscript) and isinstance(t_.value, ast.Name):
+                nm = t_.value.id
+                if _view(nm) or (nm in params and nm not in binds and nm not in ("self", "cls") and (qn, nm) not in INPLACE_OK):
+                    out.append(("inplace-foreign", x, "`%s` writes into `%s`, which is %s; the owner's data changes under it" % (
+                        ast.unparse(x)[:50], nm, "the caller's argument (never copied)" if nm in params else
+                        "bound only to `%s` (a view, not a copy)" % ast.unparse(binds[nm][0]))))
+            elif isinstance(x, ast.AugAssign) and isinstance(t_, ast.Name) and _view(t_.id) and (qn, t_.id) not in INPLACE_OK \
+                    and (_ARRAY_ATTR.search(ast.unparse(binds[t_.id][0]).split(".")[-1]) or t_.id in subscripted):
+                out.append(("inplace-foreign", x, "`%s` updates in place an array bound only to `%s` (a view, not a copy)" % (
+                    ast.unparse(x)[:50], ast.unparse(binds[t_.id][0]))))
+    # 9. the Tree yielded by trees() is ONE object updated in place: keeping references gives a list of identical trees
+    def _trees_call(e):
+        return isinstance(e, ast.Call) and isinstance(e.func, ast.Attribute) and e.func.attr == "trees"
+    for x in ast.walk(fn):
+        if isinstance(x, ast.Call) and ast.unparse(x.func) in ("list", "tuple", "sorted") and x.args and _trees_call(x.args[0]):
+            out.append(("tree-reuse", x, "`%s` keeps references to the single Tree object that trees() updates in place" % ast.unparse(x)[:50]))
+        if isinstance(x, (ast.ListComp, ast.SetComp)) and len(x.generators) == 1 and _trees_call(x.generators[0].iter) \
+                and isinstance(x.elt, ast.Name) and isinstance(x.generators[0].target, ast.Name) and x.elt.id == x.generators[0].target.id:
+            out.append(("tree-reuse", x, "`%s` keeps references to the single Tree object that trees() updates in place" % ast.unparse(x)[:50]))
+    # 10. iteration order of a set is arbitrary: a loop / list over set(...) must not produce ordered output
+    for x in ast.walk(fn):
+        it = x.iter if isinstance(x, (ast.For, ast.comprehension)) else (x.args[0] if isinstance(x, ast.Call) and ast.unparse(x.func) in ("list", "tuple", "np.array", "enumerate") and x.args else None)
+        if it is not None and (isinstance(it, (ast.Set, ast.SetComp)) or (isinstance(it, ast.Call) and ast.unparse(it.func) in ("set", "frozenset"))):
+            if isinstance(x, ast.comprehension):
+                continue        # handled through the enclosing comprehension kind below
+            if qn.split(".")[-1] not in SET_ORDER_OK:
+                out.append(("set-order", x, "`%s` iterates a set: the order is arbitrary" % ast.unparse(it)[:40]))
+        if isinstance(x, (ast.ListComp, ast.GeneratorExp)) and any(
+                isinstance(g.iter, (ast.Set, ast.SetComp)) or (isinstance(g.iter, ast.Call) and ast.unparse(g.iter.func) in ("set", "frozenset")) for g in x.generators):
+            if qn.split(".")[-1] not in SET_ORDER_OK:
+                out.append(("set-order", x, "`%s` builds a sequence by iterating a set: the order is arbitrary" % ast.unparse(x)[:50]))
     return out
 
 
 def py_slips(ctx, py, mods, only=None, rule="PY-SLIPS"):
     ctx.rule(rule, "Python-specific slips in this property's functions: no closure created inside a loop reads the loop variable "
                    "late, no mutable default argument, no `except Exception: pass`, no one-shot iterator (generator expression, "
-                   "map / zip / filter / reversed, ts.trees(), ts.variants() …) consumed by two loops or consumers")
+                   "map / zip / filter / reversed, ts.trees(), ts.variants() …) consumed by two loops or consumers, no `param or default` on a "
+                   "None-defaulted parameter, no loop variable the body never reads, no np.where / np.nonzero tuple used as the index array, "
+                   "no in-place write into the caller's argument or into a local bound only to an attribute (a view), no list of the "
+                   "single Tree object that trees() re-uses, no sequence built by iterating a set")
     n = 0
     for mn in mods:
         m = py.mod(mn)
